@@ -11,7 +11,7 @@
    Used for C02 C03 C09 C11 C12 C16 C19: TLC checks the design-level invariants below on every
    program and exports (PrintT/ToJson) each program with its predicted observables; the harness
    renders the program as source text and assembles it with the real code.                      *)
-EXTENDS Integers, Sequences, FiniteSets, TLC, Json
+EXTENDS Integers, Sequences, FiniteSets, TLC, Json, IOUtils
 
 CONSTANTS Alphabet,      \* set of statements TLC may append          (cfg: Alphabet <- XxxAlphabet)
           MaxStmts,      \* per file
@@ -42,7 +42,7 @@ Dot           == [t |-> "dot"]
 Neg(e)        == [t |-> "neg", e |-> e]
 Bin(op, l, r) == [t |-> "bin", op |-> op, l |-> l, r |-> r]
 
-LocalNames == {"1", "2", "3"}
+LocalNames == {"1", "2", "3", "10", "11", "12", "21", "1$"}
 IsLocalName(n) == n \in LocalNames
 
 (* ------------------------------------------------------------------ flattening
@@ -91,7 +91,8 @@ Flatten(fs) == FlatFiles(fs, 1, [items |-> <<>>, inst |-> 0, reg |-> 0, rep |-> 
 (* ------------------------------------------------------------------ declared scoping *)
 Defs(items)   == { i \in DOMAIN items : items[i].s.k \in {"label", "const"} /\ ~items[i].rep }
 NameOf(items, i) == items[i].s.n
-ExplicitExt(items, i) == { q \in DOMAIN items : items[q].s.k = "extern" /\ items[q].inst = items[i].inst /\ NameOf(items, i) \in items[q].s.ns }
+NsOf(s) == { s.ns[q] : q \in DOMAIN s.ns }
+ExplicitExt(items, i) == { q \in DOMAIN items : items[q].s.k = "extern" /\ items[q].inst = items[i].inst /\ NameOf(items, i) \in NsOf(items[q].s) }
 AllExt(items, i)      == { q \in DOMAIN items : items[q].s.k = "externall" /\ items[q].inst = items[i].inst }
 ExportForms(items, i) == (IF items[i].s.x THEN 1 ELSE 0) + Cardinality(ExplicitExt(items, i))
                          + (IF IsLocalName(NameOf(items, i)) THEN 0 ELSE Cardinality(AllExt(items, i)))
@@ -114,7 +115,7 @@ DuplicateExport(items) == \/ \E i \in Defs(items) : ExportForms(items, i) > 1
 DefInRepeat(items) == \E i \in DOMAIN items : items[i].s.k \in {"label", "const"} /\ items[i].rep
 (* outside the declared domain (not replayed): exporting a name the file does not define *)
 DanglingExtern(items) == \E q \in DOMAIN items : items[q].s.k = "extern" /\
-                            \E n \in items[q].s.ns : ~\E i \in Defs(items) : NameOf(items, i) = n /\ items[i].inst = items[q].inst
+                            \E n \in NsOf(items[q].s) : ~\E i \in Defs(items) : NameOf(items, i) = n /\ items[i].inst = items[q].inst
 
 (* ------------------------------------------------------------------ values: linear forms la*LA + c
    dep = depends on the base in a way that cannot cancel.  With the base known, la = 0 throughout. *)
@@ -372,25 +373,33 @@ LayoutAlphabet ==
     Blkb(Num(3)), Blkb(Sym("n")), [k |-> "even"], [k |-> "odd"], [k |-> "align", e |-> Num(4)],
     [k |-> "ascii", bs |-> <<65, 66, 67>>], Lab("a"), Lab("b"), Const("n", Num(3)),
     DotSet(Bin("+", Dot, Num(5))), [k |-> "insert", len |-> 5], [k |-> "dword", es |-> << Num(66000), Num(-2) >>], Blkw(Num(2)), I1("sob", A),
-    Rep(2, << I0("nop"), W(<< Dot >>) >>), Inc(1) }
+    Rep(2, << I0("nop"), W(<< Dot >>) >>), Inc(1), Inc(2), W(<<>>), By(<<>>), [k |-> "dword", es |-> <<>>],
+    Rep(2, << W(<< B >>), [k |-> "ascii", bs |-> <<72, 105>>] >>) }
 RelocAlphabet ==       \* C09: even-sized statements; absolute (#a, @#b, .word a) and relative (a, br a) references
   { I0("nop"), I1("movi", A), I1("mova", B), I1("movr", A), I1("movr", B), I2("movrr", A, B), I2("movii", A, B),
     I2("movii", Bin("-", B, A), Bin("+", A, Num(2))), I1("clra", B), I1("br", A), I1("br", B), I1("sob", A),
     I1("movx", A), I1("movi", Bin("-", Dot, A)), I1("movr", Bin("+", Dot, Num(4))),
     W(<<A>>), W(<<B, Bin("-", B, A)>>), W(<<Dot, Bin("+", Bin("-", B, A), Bin("-", B, A))>>), Blkw(Num(2)),
-    Lab("a"), Lab("b"), Const("c", Bin("+", A, Num(2))), W(<<Sym("c")>>), Rep(2, << I1("movr", A), W(<<Dot>>) >>), Inc(1) }
+    Lab("a"), Lab("b"), Const("c", Bin("+", A, Num(2))), W(<<Sym("c")>>), Rep(2, << I1("movr", A), W(<<Dot>>) >>), Inc(1), Inc(2),
+    LabX("g"), I1("movr", Sym("x")), I1("br", Sym("x")) }
+RelocIncFiles == << [name |-> "i1", body |-> << LabX("x"), I1("movr", Sym("g")), W(<< Sym("x"), Bin("-", Sym("g"), Sym("x")) >>), I1("mova", Sym("g")) >>],
+                    [name |-> "i2", body |-> << I0("nop"), Inc(1), I1("movr", Sym("x")), I1("movi", Sym("x")) >>] >>
 
 OrderAlphabet ==       \* C03: definition chains / diamonds / uses in every operand and directive position
   { Const("a", Bin("+", B, Num(1))), Const("b", Bin("*", Sym("c"), Num(2))), Const("c", Num(5)), Const("c", Bin("-", Sym("l"), Sym("m"))),
     Const("a", Bin("/", B, Num(2))), Const("b", Bin("+", A, Num(1))), Const("d", Bin("<<", Sym("c"), Num(1))),
     Lab("l"), Lab("m"), W(<<A>>), W(<<B, Sym("c")>>), By(<<Sym("c")>>), I1("movi", A), I1("mova", B), I1("movx", Sym("c")),
     I1("br", Bin("+", Dot, Sym("c"))), Blkb(Sym("c")), Blkb(B), [k |-> "align", e |-> Sym("c")], Rep(2, << W(<<A>>) >>),
-    DotSet(Bin("+", Dot, Sym("c"))), W(<<Sym("d"), Bin("-", Sym("m"), Sym("l"))>>), I0("nop") }
+    DotSet(Bin("+", Dot, Sym("c"))), W(<<Sym("d"), Bin("-", Sym("m"), Sym("l"))>>), I0("nop"),
+    \* two symbols that both depend on one later label, combined; a product of two not yet known values
+    Const("p", Bin("+", Sym("l"), Num(2))), Const("q", Bin("+", Sym("l"), Num(102))), W(<< Bin("-", Sym("q"), Sym("p")) >>),
+    I1("movi", Bin("-", Bin("+", Sym("q"), Sym("q")), Bin("+", Sym("p"), Sym("p")))), W(<< Bin("*", Bin("+", A, Num(1)), B) >>),
+    Blkb(Bin("*", Bin("+", Sym("c"), Num(1)), Sym("d"))) }
 
 ScopeAlphabet ==       \* C11: reused local and private names, all export forms, all orders
   { Lab("a"), LabX("a"), Lab("b"), Lab("1"), Lab("2"), Const("a", Num(7)), ConstX("a", Num(11)), Const("b", Num(13)),
     ConstX("b", Num(17)), W(<<A>>), W(<<B>>), W(<<Sym("1")>>), I1("br", Sym("1")), I1("br", Sym("2")), I1("movi", A),
-    [k |-> "extern", ns |-> {"a"}], [k |-> "extern", ns |-> {"a", "b"}], [k |-> "externall"], Inc(1), Inc(2), I0("nop"),
+    [k |-> "extern", ns |-> <<"a">>], [k |-> "extern", ns |-> <<"a", "b">>], [k |-> "externall"], Inc(1), Inc(2), I0("nop"),
     Rep(2, << I1("br", Sym("1")) >>) }
 ScopeIncFiles == << [name |-> "i1", body |-> << W(<<A>>), Lab("b"), Lab("1"), I1("br", Sym("1")) >>],
                     [name |-> "i2", body |-> << LabX("a"), W(<<B>>) >>] >>
@@ -403,6 +412,8 @@ LinkAlphabet ==        \* C12: .link / leading '. =' with expressions whose depe
     Link(Bin("+", Bin("/", Bin("-", E, S), Num(2)), K)), Link(Bin("+", K, Bin("<<", Bin("-", E, S), Num(1)))),
     Link(Bin("+", K, Sym("k"))), Link(E), Link(Bin("/", E, Num(2))), Link(Bin("-", Bin("+", K, E), Num(2))), Link(Bin("+", Dot, Num(8))),
     Link(Bin("-", Bin("<<", E, Num(1)), Bin("<<", S, Num(1)))), Link(Bin(">>", Bin("-", E, S), Num(0))),
+    Link(Bin("-", Bin("-", Bin("+", K, Bin("*", Num(2), E)), S), S)), Link(Bin("-", Bin("+", K, Bin("*", Num(2), E)), S)),
+    Link(Bin("-", Bin("+", K, Bin("*", E, Num(3))), Bin("*", Num(3), S))),
     DotSet(K), DotSet(Bin("+", K, Bin("-", E, S))), DotSet(Bin("+", Dot, Num(3))), DotSet(Bin("+", S, Num(8))), DotSet(Bin("-", Dot, Num(2))),
     DotSet(Bin("+", Dot, Num(0))), DotSet(Bin("+", S, Num(64))),
     Const("k", Bin("-", E, S)), Lab("s"), Lab("e"), I0("nop"), W(<<S, E>>), Blkb(Num(3)), By(<<Num(1)>>) }
@@ -410,6 +421,7 @@ LinkAlphabet ==        \* C12: .link / leading '. =' with expressions whose depe
 StructAlphabet ==      \* C16: .repeat bodies (own '.', impure operators, hoisted index expressions, local labels), insert_file, .end, .once
   { Rep(0, << I0("nop") >>), Rep(1, << W(<<Dot>>) >>), Rep(3, << W(<< Bin("/", Dot, Num(2)) >>) >>), Rep(2, << W(<< Bin("%", Dot, Num(4)), Bin("<<", Dot, Num(1)), Bin(">>", Dot, Num(1)) >>) >>),
     Rep(2, << I1("movx", Bin("+", Num(2), Num(2))) >>), Rep(2, << I1("movx", Bin("+", Sym("c"), Num(2))), I1("movr", Dot) >>),
+    Rep(2, << I1("movx", Neg(Sym("c"))) >>), Rep(3, << I1("movx", Bin("+", Neg(Sym("c")), Num(2))), By(<< Num(1) >>) >>),
     Rep(2, << I1("br", Sym("1")) >>), Rep(2, << Rep(2, << W(<<Dot>>), By(<<Num(1)>>) >>) >>), Rep(3, << [k |-> "even"], By(<< Bin("-", Dot, A) >>) >>),
     Rep(2, << I1("movi", Bin("/", Bin("-", Dot, A), Num(2))), I1("sob", A) >>), Rep(2, << Blkb(Bin("%", Dot, Num(4))) >>),
     Rep(2, << Lab("z") >>), Rep(2, << Const("z", Num(1)) >>),
@@ -421,13 +433,15 @@ StructBigAlphabet ==   \* C16: large repeat counts (the property's n <= 40), kep
 StructIncFiles == << [name |-> "i1", body |-> << [k |-> "once"], LabX("x"), W(<< Sym("x"), Dot >>) >>],
                      [name |-> "i2", body |-> << W(<< Dot >>), [k |-> "end"], W(<< Sym("undefined") >>) >>] >>
 
-ListAlphabet ==        \* C19: ordinary symbols of any value (negative, > 16 bit, equal values), labels, exports, includes
+ListAlphabet ==        \* C19: ordinary symbols of any value (negative, > 16 bit, > 18 bit, equal values), dotted names, labels, exports, includes
   { Lab("a"), Lab("b"), LabX("c"), Lab("1"), Const("n", Num(-5)), Const("big", Num(70000)), Const("z", Num(0)), ConstX("m", Bin("-", B, A)),
+    Const("n2", Num(-9)), Const("page", Num(262144)), Const("top", Num(65535)), Lab("buf.s"), Lab("buf.e"), Const("buf.len", Bin("-", Sym("buf.e"), Sym("buf.s"))),
     Const("a", Num(3)), Const("b", Num(512)), I0("nop"), W(<<A, B>>), Blkb(Num(3)), By(<<Num(1)>>), Inc(1), Inc(2), [k |-> "externall"] }
 ListIncFiles == << [name |-> "i1", body |-> << Lab("x"), I0("nop"), Lab("a"), Const("n", Num(9)) >>],
                    [name |-> "i2", body |-> << Const("q", Num(-70000)), LabX("y"), By(<<Num(2)>>) >>] >>
 
-LayoutIncFiles == << [name |-> "i1", body |-> << Lab("x"), W(<< Sym("x"), Dot >>), By(<< Num(7) >>) >>] >>
+LayoutIncFiles == << [name |-> "i1", body |-> << Lab("x"), W(<< Sym("x"), Dot >>), By(<< Num(7) >>) >>],
+                     [name |-> "i2", body |-> << W(<< Sym("y") >>), [k |-> "ascii", bs |-> <<79, 75, 33>>], Lab("y"), By(<< Bin("-", Dot, Sym("y")) >>) >>] >>
 
 (* ------------------------------------------------------------------ TLC writes the program *)
 Stmts(fs)  == Concat(fs)
@@ -444,7 +458,11 @@ Guard(fs, s) ==
 
 ASSUME PrintT(ToJson([incfiles |-> IncFiles]))      \* the harness needs the include-file pool to render programs
 
-Init == files = << <<>> >>
+(* "given" mode: the programs are not written by TLC but read from a JSON file (IOEnv.PROGRAMS = path, a sequence of
+   programs, each a sequence of files); MaxStmts = MaxFiles = 0 then disables Next.  This makes the same semantics the
+   oracle for large harness-generated programs (60 statements, 20+ scopes), which BFS cannot reach.                  *)
+GivenPrograms == IF "PROGRAMS" \in DOMAIN IOEnv /\ IOEnv.PROGRAMS # "" THEN JsonDeserialize(IOEnv.PROGRAMS) ELSE <<>>
+Init == IF MaxStmts = 0 THEN files \in { GivenPrograms[q] : q \in DOMAIN GivenPrograms } ELSE files = << <<>> >>
 AddStmt == \E s \in Alphabet : /\ Len(Last(files)) < MaxStmts
                                /\ Guard(files, s)
                                /\ files' = [files EXCEPT ![Len(files)] = Append(@, s)]
@@ -520,8 +538,9 @@ LinkIsConcatenation(r) ==
 
 (* C19: the listing shows, under each source file's name, every ordinary symbol of that file with its final value, ordered by
    value and then by name *)
-NameRank(n) == CASE n = "a" -> 1 [] n = "b" -> 2 [] n = "big" -> 3 [] n = "c" -> 4 [] n = "m" -> 5 [] n = "n" -> 6 [] n = "q" -> 7
-                 [] n = "x" -> 8 [] n = "y" -> 9 [] n = "z" -> 10 [] OTHER -> 11
+NameRank(n) == CASE n = "a" -> 1 [] n = "b" -> 2 [] n = "big" -> 3 [] n = "buf.e" -> 4 [] n = "buf.len" -> 5 [] n = "buf.s" -> 6 [] n = "c" -> 7
+                 [] n = "m" -> 8 [] n = "n" -> 9 [] n = "n2" -> 10 [] n = "page" -> 11 [] n = "q" -> 12 [] n = "top" -> 13
+                 [] n = "x" -> 14 [] n = "y" -> 15 [] n = "z" -> 16 [] OTHER -> 17
 Before(p, q) == p.value < q.value \/ (p.value = q.value /\ NameRank(p.name) <= NameRank(q.name))
 RECURSIVE SetAsSeq(_)
 SetAsSeq(ss) == IF ss = {} THEN <<>> ELSE LET x == CHOOSE y \in ss : TRUE IN <<x>> \o SetAsSeq(ss \ {x})
